@@ -1447,7 +1447,7 @@ impl Engine for C20 {
         })
     }
     fn n_runs(&self, tier: Tier) -> u64 {
-        tier.pick(200, 3_000)
+        tier.pick(300, 3_000)
     }
     fn worker_stack(&self) -> usize {
         64 << 20
